@@ -170,8 +170,11 @@ type scenario struct {
 	curCert  uint64
 	sched    []paramRec
 	certOnly map[uint32]bool
-	big      bool // more than 5 validators: bitmap of several bytes, one heavy validator drives finality
-	nrand    int  // random signer subsets per height for big sets
+	wantID   bool // the next parameter set gets a validator registered with the identity point
+	forceID  map[uint32]bool
+	idAddr   map[int]bool // validators that were ever registered with the identity point as BLS key
+	big      bool         // more than 5 validators: bitmap of several bytes, one heavy validator drives finality
+	nrand    int          // random signer subsets per height for big sets
 }
 
 func (s *scenario) blockCode(id []byte) uint64 {
@@ -246,6 +249,9 @@ func blsSignIndependent(msg, sk []byte) []byte {
 // signature of key ki over the certificate FIELDS carried by h (h.ID is taken as the block ID as it stands, so a
 // certificate with the ID of one block and other fields can be signed), registered in the symbol table
 func (s *scenario) signCert(ki int, h *blockchain.BlockHeader) []byte {
+	if ki == s.nkeys+1 {
+		ki = s.nkeys
+	}
 	k := fmt.Sprintf("%d/%x/%d/%d/%x/%x", ki, h.ID, h.Height, h.Timestamp, h.StateRoot, h.ValidatorsHash)
 	if v, ok := s.single[k]; ok {
 		return v
@@ -348,19 +354,37 @@ func (s *scenario) randomParams() (uint64, uint64, liskbft.BFTValidators) {
 	idxs = idxs[:n]
 	vals := liskbft.BFTValidators{}
 	total := uint64(0)
-	mode := r.Intn(3)
+	mode := r.Intn(4)
+	if mode == 3 && (n < 3 || r.Intn(2) == 0) {
+		mode = 2
+	}
 	small := mode == 0
+	idAt := -1
+	if n >= 2 && (r.Intn(5) == 0 || s.wantID) {
+		idAt = r.Intn(n)
+		s.wantID = false
+	}
 	for j, i := range idxs {
 		w := uint64(1 + r.Intn(9))
 		if small {
 			w = uint64(1 + r.Intn(3))
+		} else if mode == 3 { // two weights of 2^62 (SetBFTParameters refuses a total that overflows uint64): the sums come close to 2^64
+			w = uint64(1 + r.Intn(5))
+			if j < 2 {
+				w = 1 << 62
+			}
 		} else if mode == 1 { // pairwise distinct subset sums: every mix-up of weights changes some signer set's weight
 			w = uint64(1) << uint((j+perm)%len(idxs))
 		} else if r.Intn(8) == 0 {
 			w = uint64(1 + r.Intn(1000))
 		}
 		total += w
-		vals = append(vals, liskbft.NewValidator(s.addrs[i], w, s.pks[i]))
+		pk := s.pks[i]
+		if idAt == j {
+			s.idAddr[i] = true
+			pk = s.pks[s.nkeys+1] // this validator is registered with the point at infinity as BLS key
+		}
+		vals = append(vals, liskbft.NewValidator(s.addrs[i], w, pk))
 	}
 	lo := total/3 + 1
 	thr := func() uint64 { return lo + uint64(r.Intn(int(total-lo+1))) }
@@ -445,8 +469,10 @@ func must(err error) {
 }
 
 func newScenario(r *hx.Rng, id int, nkeys int, length int) *scenario {
-	s := &scenario{r: r, nkeys: nkeys, big: nkeys > 5, nrand: 14, headers: map[uint32]*blockchain.BlockHeader{}, idCode: map[string]uint64{}, sigTab: map[string]sigSym{},
+	s := &scenario{r: r, idAddr: map[int]bool{}, nkeys: nkeys, big: nkeys > 5, nrand: 14, headers: map[uint32]*blockchain.BlockHeader{}, idCode: map[string]uint64{}, sigTab: map[string]sigSym{},
 		single: map[string][]byte{}}
+	// one more "key" (index nkeys+1) is appended below: the compressed point at infinity, which a validator may be registered
+	// with; it has no secret key — where a signature of such a validator is asked for, the outsider's (index nkeys) is used
 	for i := 0; i < nkeys+1; i++ { // the last key is never a validator
 		kp := crypto.BLSKeyGen(r.Bytes(32))
 		s.pks = append(s.pks, kp.PublicKey)
@@ -456,6 +482,10 @@ func newScenario(r *hx.Rng, id int, nkeys int, length int) *scenario {
 		copy(a[1:], r.Bytes(19))
 		s.addrs = append(s.addrs, a)
 	}
+	idKey := make([]byte, 48)
+	idKey[0] = 0xc0
+	s.pks = append(s.pks, idKey)
+	s.sks = append(s.sks, s.sks[nkeys])
 	database, err := db.NewInMemoryDB()
 	must(err)
 	ts0 := uint32(1000000)
@@ -497,6 +527,10 @@ func newScenario(r *hx.Rng, id int, nkeys int, length int) *scenario {
 		}
 	}
 	s.certOnly = map[uint32]bool{}
+	s.forceID = map[uint32]bool{}
+	if id%2 == 1 && length > 10 { // a validator with the identity point as BLS key inside / next to the certifiable window
+		s.forceID[uint32(length-3-r.Intn(6))] = true
+	}
 	for i := 0; i < 2; i++ { // certificate-threshold-only updates shortly before the tip (inside the certifiable window)
 		if length > 6 {
 			s.certOnly[uint32(length-2-r.Intn(6))] = true
@@ -531,7 +565,15 @@ func (s *scenario) extend(n int, changeAt map[uint32]bool) {
 		hd := mkHeader(h, s.ts0+10*h, last.ID, gen, s.lastGen[string(gen)], prevoted, 1+h%5, 3, ac)
 		must(bft.BeforeTransactionsExecute(hd.Readonly(), store))
 		s.lastGen[string(gen)] = h
-		if changeAt[h] {
+		if s.forceID[h] && !s.big && s.nkeys >= 2 {
+			s.wantID = true
+			p, c, vals := s.randomParams()
+			for len(vals) < 2 {
+				s.wantID = true
+				p, c, vals = s.randomParams()
+			}
+			s.setParams(store, h+1, p, c, vals)
+		} else if changeAt[h] {
 			p, c, vals := s.randomParams()
 			s.setParams(store, h+1, p, c, vals)
 		} else if s.certOnly[h] {
@@ -666,8 +708,9 @@ func (s *scenario) verifyOp(tag string, height uint32, bits []byte, sig []byte) 
 }
 
 type sortedVal struct {
-	ki int
-	w  uint64
+	ki   int // index of the registered BLS key in the key table (nkeys+1 = the point at infinity)
+	w    uint64
+	addr []byte
 }
 
 // validators of GetBFTParameters(h) in ascending BLS key order (nil if no parameters)
@@ -678,7 +721,7 @@ func (s *scenario) sortedVals(h uint32) []sortedVal {
 	}
 	out := []sortedVal{}
 	for _, v := range prm.Validators() {
-		out = append(out, sortedVal{ki: s.keyIdx(v.BLSKey()), w: v.BFTWeight()})
+		out = append(out, sortedVal{ki: s.keyIdx(v.BLSKey()), w: v.BFTWeight(), addr: v.Address()})
 	}
 	sort.Slice(out, func(i, j int) bool { return string(s.pks[out[i].ki]) < string(s.pks[out[j].ki]) })
 	return out
@@ -764,6 +807,9 @@ func (s *scenario) honest(h uint32, subset sset, vals []sortedVal, hdr *blockcha
 	for i, v := range vals {
 		if subset.has(i) {
 			bits[i/8] |= 1 << (i % 8)
+			if v.ki == s.nkeys+1 {
+				continue // registered with the identity point: its bit is claimed, nobody can sign for it
+			}
 			kis = append(kis, v.ki)
 			hs = append(hs, hdr)
 		}
@@ -970,10 +1016,15 @@ func (s *scenario) randomCommit(heights []uint32) commitSpec {
 		hdr = s.foreignHeader(h, 0)
 	}
 	vi := r.Intn(s.nkeys)
+	addr := s.addrs[vi]
 	if vals := s.sortedVals(h); vals != nil && r.Intn(5) != 0 {
-		vi = vals[r.Intn(len(vals))].ki
+		v := vals[r.Intn(len(vals))]
+		vi, addr = v.ki, v.addr
+		if vi == s.nkeys+1 { // registered with the identity point: whatever is sent in its name cannot verify
+			vi = s.nkeys
+		}
 	}
-	c := commitSpec{block: hdr.ID, height: h, addr: s.addrs[vi], sig: s.signCert(vi, hdr)}
+	c := commitSpec{block: hdr.ID, height: h, addr: addr, sig: s.signCert(vi, hdr)}
 	switch r.Intn(14) {
 	case 0: // signature over a foreign certificate
 		c.sig = s.signCert(vi, s.foreignHeader(h, r.Intn(3)))
@@ -1155,7 +1206,11 @@ func (s *scenario) poolOps(n int) {
 			if b > s.tip+2 {
 				b = s.tip + 2
 			}
-			s.certifyOp(a, b, r.Intn(s.nkeys))
+			vi := r.Intn(s.nkeys)
+			if s.idAddr[vi] { // Certify presupposes that the node's key is the registered one
+				continue
+			}
+			s.certifyOp(a, b, vi)
 		case x < 17:
 			s.gacOp()
 		case x == 17 && r.Intn(2) == 0:
@@ -1235,7 +1290,7 @@ func (s *scenario) assembleSweep() {
 			cs := []commitSpec{}
 			for i, v := range vals {
 				if subset.has(i) {
-					cs = append(cs, commitSpec{block: s.headers[h].ID, height: h, addr: s.addrs[v.ki], sig: s.signCert(v.ki, s.headers[h])})
+					cs = append(cs, commitSpec{block: s.headers[h].ID, height: h, addr: v.addr, sig: s.signCert(v.ki, s.headers[h])})
 				}
 			}
 			if mhp >= 100 && si%2 == 0 {
@@ -1294,8 +1349,8 @@ func (s *scenario) straddleOps() {
 				s.exec.VerifC06Pool().Cleanup(func(uint32) bool { return false })
 				s.rec.Ops = append(s.rec.Ops, opRec{T: "cl", Keep: []uint32{}, PG: []commitRec{}, PNG: []commitRec{}})
 				s.scvOp([]commitSpec{
-					{block: s.headers[hx].ID, height: hx, addr: s.addrs[w.ki], sig: s.signCert(w.ki, s.headers[hx])},
-					{block: s.headers[hy].ID, height: hy, addr: s.addrs[v.ki], sig: s.signCert(v.ki, s.headers[hy])},
+					{block: s.headers[hx].ID, height: hx, addr: w.addr, sig: s.signCert(w.ki, s.headers[hx])},
+					{block: s.headers[hy].ID, height: hy, addr: v.addr, sig: s.signCert(v.ki, s.headers[hy])},
 				}, false)
 			}
 		}
@@ -1355,6 +1410,9 @@ func main() {
 			}
 			s.extend(k, ch)
 			s.snapshotEnv(ph)
+			if !s.big {
+				s.verifyOps(0)
+			}
 			if s.big {
 				s.poolOps(*npool / 8)
 			} else {
